@@ -192,7 +192,7 @@ pub fn check(case: &SemCase, st: &mut Stats, ex: &Excl, max_variants: usize) -> 
 }
 
 pub fn run(ctx: &mut RunCtx) -> i32 {
-    let cases = ctx.cases(10_000, 300_000);
+    let cases = ctx.cases(20_000, 300_000);
     let (n_inits, maxv) = ctx.tier.pick((6, 6), (12, 15));
     let (excl, known_seen) = super::activate_exclusions(ctx, "C14");
     let mut cfg = cfg();
